@@ -11,7 +11,7 @@ RKYV_RULES = [
     dict(rule="R5", kind="re", pat=r"rkyv::archived_root::<Metadata>\(&(\w+)\[\.\.\]\)", repl=r"rkyv_archived_root_metadata(&\1)", min=0,
          why="rkyv::archived_root::<Metadata>(&a[..]) -> unsafe stub with `requires valid_archive`"),
     dict(rule="R5", kind="re", pat=r"\.deserialize\(&mut rkyv::Infallible\)", repl=".deserialize_infallible()", min=0, why="deserialize(&mut Infallible) -> stub"),
-]
+] + DECODE_CALL_RULES
 MISC_RULES = [dict(rule="R5", kind="re", pat=r"u64::from_be_bytes\(", repl="u64_from_be_bytes(", min=0, why="u64::from_be_bytes (logging only) -> stub")]
 ENUM_FOR = [
     dict(rule="R8", kind="re", pat=r"for \((\w+), (\w+)\) in (\w+)\.iter\(\)\.enumerate\(\) \{", repl=r"for \1 in 0..\3.len() { let \2 = &\3[\1];", min=0,
@@ -41,6 +41,7 @@ UNIT = dict(
         dict(kind="struct", file=BLK, struct="Metadata"),
         dict(kind="struct", file=WR, struct="ReadPlan"),
         dict(kind="prelude", file="rkyv.rs"),
+        DECODE_ITEM,
         dict(kind="model", file="parse_model.rs"),
         dict(kind="model", file="bytes_model.rs"),
         CHECKSUM_ITEM,
